@@ -70,6 +70,15 @@ Node World::obs() {
     return d;
 }
 
+std::string World::open_path() {
+    if (!via_symlink) return path;
+    std::string l = dir + "/link to file.nix";
+    syscall(SYS_unlink, l.c_str());
+    if (syscall(SYS_symlink, path.c_str(), l.c_str()) != 0) return path;
+    cnt.inc("open.via_symlink");
+    return l;
+}
+
 bool World::open_file(int m, bool create) {
     // the open itself is part of a read-only session: remember the disk state before it
     std::string pre_bytes;
@@ -79,7 +88,7 @@ bool World::open_file(int m, bool create) {
     try {
         FileMode fm = create ? FileMode::Overwrite : (m ? FileMode::ReadOnly : FileMode::ReadWrite);
         Compression comp = plan.swarm.file_compression ? Compression::DeflateNormal : Compression::None;
-        f = File::open(path, fm, "hdf5", comp);
+        f = File::open(open_path(), fm, "hdf5", comp);
         is_open = true; mode = m; session++; lookups_due = true;
         cnt.inc(m ? "open.ro" : (create ? "open.create" : "open.rw"));
         if (m == 1) { ro_tracking = true; ro_bytes = pre_bytes; ro_writes0 = w0; ro_wopens0 = wo0; }
@@ -519,6 +528,7 @@ void World::run(const Plan &p, const std::string &d) {
     entropy_seed(s.entropy);
     pid_set(4000 + (int) ((s.entropy >> 9) % 3));
     threaded_run = ((s.entropy >> 20) % 5) == 0;
+    via_symlink = ((s.entropy >> 28) % 5) == 0;
     twin_safe = plan_is_twin(plan);
     blind = twin_safe && g_blind_twin;
     h5knob_set(s.cache_mode, s.sieve_mode);
